@@ -98,6 +98,8 @@ fn main() {
                 let f = &r["fault"];
                 let fault = if let Some(o) = f.get("outage") {
                     e1o::Fault::Outage { rpc: o[0].as_u64().unwrap(), polls_down: o[1].as_u64().unwrap() as u32, with_following_chain_ops: o[2].as_bool().unwrap() }
+                } else if let Some(d) = f.get("reorg_stall") {
+                    e1o::Fault::ReorgStall { op: d[0].as_u64().unwrap() as usize, depth: d[1].as_u64().unwrap() as usize }
                 } else if let Some(d) = f.get("idle_outage") {
                     e1o::Fault::IdleOutage { op: d[0].as_u64().unwrap() as usize, back_on: d[1].as_u64().unwrap() as u8 }
                 } else {
